@@ -67,7 +67,11 @@ pub fn all() -> Vec<Prop> {
             id: "C01",
             level: "exploration",
             rule: "one evaluation = one simulated cluster execution (seed -> committee, fault mix, plan of director actions, schedule); non-trivial = at least one block committed by a correct node and (except in the fault-free population) at least one fault fired; distinct = distinct event-log fingerprint",
-            batches: |t| bft_batches(&[("faultfree", 24), ("swarm", 200), ("hidden", 160)], &[("faultfree", 200), ("swarm", 6000), ("hidden", 4000)], t),
+            batches: |t| {
+                let mut b = bft_batches(&[("faultfree", 24), ("swarm", 200), ("hidden", 160)], &[("faultfree", 200), ("swarm", 6000), ("hidden", 4000)], t);
+                b.push(Batch { engine: "node", mode: "cluster", runs: if t == "thorough" { 600 } else { 16 } });
+                b
+            },
             expected_probes: || vec![],
             components: bft_components,
             assumptions: bft_assumptions,
@@ -102,10 +106,18 @@ pub fn all() -> Vec<Prop> {
         Prop {
             id: "C06",
             level: "exploration",
-            rule: "one evaluation = an adversarial prefix (all fault kinds) followed by the fair synchronous suffix; progress oracle: every correct node's durable height grows before 5 views with correct leaders have been entered and left by all correct nodes, and views never stop advancing for 4.5 timeouts; non-trivial = the prefix injected at least one fault and left the nodes in different views or heights; distinct = distinct event-log fingerprint",
-            batches: |t| bft_batches(&[("live-faultfree", 16), ("live", 160)], &[("live-faultfree", 100), ("live", 5000)], t),
-            expected_probes: || vec!["suffix_progress"],
-            components: bft_components,
+            rule: "bft populations: one evaluation = an adversarial prefix (all fault kinds) followed by the fair synchronous suffix; progress oracle: every correct node's durable height grows before 5 views with correct leaders have been entered and left by all correct nodes, and views never stop advancing for 4.5 timeouts; non-trivial = the prefix injected at least one fault and left the nodes in different views or heights. node/cluster population: one evaluation = 4-6 complete nodes (executor::Executor) over simulated TCP which find each other by address gossip and produce blocks while connections are reset, one node is stopped and restarted from its durable state, persistence lags; once faults stop every validator's durable chain must grow by 3 blocks within 1200 simulated seconds; non-trivial = at least 3 blocks committed; distinct = distinct event-log fingerprint",
+            batches: |t| {
+                let mut b = bft_batches(&[("live-faultfree", 16), ("live", 160)], &[("live-faultfree", 100), ("live", 5000)], t);
+                b.push(Batch { engine: "node", mode: "cluster", runs: if t == "thorough" { 1200 } else { 32 } });
+                b
+            },
+            expected_probes: || vec!["suffix_progress", "blocks_committed_end_to_end"],
+            components: || {
+                let mut c = bft_components();
+                c["real"].as_array_mut().unwrap().push(json!("node/cluster population: 4-6 complete executor::Executor nodes (network component with accept loop, noise, handshakes, pools, mux, rpc, address and block gossip, consensus connections; bft; engine manager) over simulated TCP (hook H2) - the whole system in one process"));
+                c
+            },
             assumptions: || {
                 let mut a = bft_assumptions();
                 a.push("fair suffix: all correct nodes up, every message between correct nodes delivered within one round, block sync serves committed blocks, storage prompt, equal clock rates; Byzantine validators silent or misbehaving without flooding");
